@@ -225,6 +225,43 @@ PROPS = {
         "assumptions": COMMON_ASSUME,
         "trusted_base": ["modelled, not verified: serde's Deserialize/Serialize impls for std types (serde 1.0.224), the output of candid_derive for the corpus types, the thread-local type memo (types/internal.rs) and TypeId plumbing: all exercised by the corpus, none transcribed to Coq", "the harness's independent encoder (harness/src/val.rs: type table + M with padding knobs) that writes the input messages"],
     },
+    "C17": {
+        "claim": "On every run, for generated checked programs with a main service (recursive and mutually recursive definitions, definitions named like "
+                 "JavaScript reserved words incl. class / class_ / return, names needing quotes, non-ASCII and hostile names, service constructors with init "
+                 "arguments, references and services nested in records): the generated JavaScript is EXECUTED under node against an abstract IDL builder; the "
+                 "type graph it builds for the factory and for init is handed to the model, which decides structural equality with the program (eq_dec, proved "
+                 "correct: it decides the co-inductive equality TyEq). c17.order compares chase_actor / infer_rec of bindings/analysis.rs with their Coq model. "
+                 "Coq theorems (closed) on that model for ALL environments: every emitted definition uses only names emitted before it or in the set emitted as "
+                 "IDL.Rec() first; the emitted list is closed, bound and duplicate-free; the identifier escaping is injective and never yields a reserved word.",
+        "note": "The printers above analysis.rs (pp_ty, pp_defs, field / method quoting) are not modelled: that the emitted program rebuilds the right type is "
+                "decided per generated program by execution, not proved for all programs.",
+        "props_file": "props/C17.v",
+        "shards": (4, 16),
+        "rule": "cases: 60 (x10 thorough) programs from the generator of C12/C14, each through c17.order, c17.denotes (one node run) and p.c17.idents (const "
+                "declarations unique, no reserved word as identifier). Non-trivial = at least one definition.",
+        "assumptions": COMMON_ASSUME,
+        "trusted_base": ["modelled, not verified: the pretty crate's layout engine, handlebars templates of the Rust binding, the javascript / typescript / motoko / rust printers above the modelled functions (analysis.rs order, identifier escaping, doc-comment escaping, quoting shape)", 'node 20 evaluating the generated JavaScript against harness/js/idl_stub.js (an abstract IDL builder written for this check)', "Rust's char::escape_debug: assumed only through the shape esc_ok, which p.c19.escape_debug establishes exhaustively on every run"],
+    },
+    "C19": {
+        "claim": "Predicates on generated checked programs (with / without main service, service constructors, keyword / quoted / non-ASCII names) for the "
+                 "JavaScript, TypeScript, Motoko (identifier method names, the documented precondition) and Rust generators: each returns (a panic is caught and "
+                 "reported), returns the same text on three runs incl. a re-parsed program; the JavaScript evaluates (every name declared before use or "
+                 "recursive first); with the main service's methods renamed to unique tokens every method is mentioned exactly as often as the target mentions "
+                 "a method; 30 hostile programs whose doc comments and quoted names carry comment terminators, quotes, backslashes, template syntax, line "
+                 "separators and attribute syntax followed by a marker: after removing comments and string literals with a lexer of the target language the "
+                 "marker never survives as code. Coq theorems (closed): the definition chase is closed / bound / duplicate-free; the TypeScript doc-comment "
+                 "escaping (compared with its model on every run) never leaves a comment terminator, for every line; a quoted name escaped character by "
+                 "character ends exactly at its closing quote for every name, given the shape esc_ok of each character's escape -- which is checked for "
+                 "Rust's escape_debug over all 1,112,064 scalar values, in both positions, on every run.",
+        "note": "Totality and determinism of the generators are not theorems (layout engine, templates). TypeScript / Motoko / Rust closure is covered through "
+                "the method-mention and injection predicates and, for Rust, by C18's compilation where claimed; no TypeScript or Motoko compiler exists here.",
+        "props_file": "props/C19.v",
+        "shards": (4, 16),
+        "rule": "cases: 40 (x10) programs x 4 targets x {total, methods}, JavaScript closure by execution, 30 hostile programs x 3 targets + 4 for Motoko, "
+                "17 blocks covering every scalar value for the escape shape, 73 (x10) doc-comment lines against the model. Non-trivial = a definition or a hostile payload.",
+        "assumptions": COMMON_ASSUME,
+        "trusted_base": ["modelled, not verified: the pretty crate's layout engine, handlebars templates of the Rust binding, the javascript / typescript / motoko / rust printers above the modelled functions (analysis.rs order, identifier escaping, doc-comment escaping, quoting shape)", 'node 20 evaluating the generated JavaScript against harness/js/idl_stub.js (an abstract IDL builder written for this check)', "Rust's char::escape_debug: assumed only through the shape esc_ok, which p.c19.escape_debug establishes exhaustively on every run"],
+    },
     "C09": {
         "claim": "Coq theorems (closed, no axioms) over executable mirrors of every (S)LEB128 codec in the code: Nat::decode, Int::decode, the "
                  "typed deserializer's 9-byte fast paths with their fall-backs, and the 128-bit decoders map EVERY terminated byte string of ANY "
